@@ -59,8 +59,9 @@ impl futures_io::AsyncRead for Source {
         let avail = s.stream.len() - s.rd;
         let step = if s.policy.is_some() {
             let mut p = s.policy.take().unwrap();
-            let st = p.next(buf.len(), avail);
+            let st = if crate::awrite::budget_over() { Step::Fail } else { p.next(buf.len(), avail) };
             s.policy = Some(p);
+            crate::awrite::budget_note();
             st
         } else {
             match s.script.front().cloned() {
@@ -193,6 +194,7 @@ impl Policy for RandomPolicy {
 /// inner read and returned result.
 pub fn run_random(seed: u64, nframes: usize, max_payload: usize) -> Vec<Value> {
     let mut rng = StdRng::seed_from_u64(seed);
+    crate::awrite::budget_reset();
     let maxlen = if seed % 4 == 0 { (max_payload as u32 * 3) / 4 + 1 } else { max_payload as u32 };
     let frames: Vec<FrameSpec> = (0..nframes).map(|i| {
         let n = match rng.gen_range(0..10) { 0 => 0, 1 => 1, 2 => max_payload, _ => rng.gen_range(1..=max_payload) };
@@ -217,7 +219,7 @@ pub fn run_random(seed: u64, nframes: usize, max_payload: usize) -> Vec<Value> {
     let mut cx = Context::from_waker(&waker);
     let mut fut: Option<Fut> = None;
     let (mut ends, mut reads, mut stuck) = (0, 0, 0);
-    while ends < 2 && reads < 4 * nframes + 20 && stuck < 6 {
+    while ends < 2 && reads < 4 * nframes + 20 && stuck < 6 && !crate::awrite::budget_over() {
         if fut.is_none() {
             events.push(json!({"ev":"start","k":0}));
             reads += 1;
